@@ -83,6 +83,53 @@ def playback_layer_b(row):
         return None
 
 
+def judge_layer_c(prop, crows):
+    """turn layer C rows into (violation lines, notes, undecided, samples, n_ok)"""
+    lines, notes, undecided, samples = [], [], [], []
+    c_ok = 0
+    violations = 0
+    for row in crows:
+        v = row["result"]
+        d = row["def"]
+        samples.append({"definition": d["name"], "N": row["N"], "m": row["m"], "unwind": row["unwind"], "status": v["status"], "kani_s": v["time_s"],
+                        "checks": v["checks"], "covers_satisfied": v["covers"], "lexer": LC.G.lexer_text(d)})
+        if v["status"] == "ok":
+            c_ok += 1
+            continue
+        if v["status"] == "undecided":
+            undecided.append("layer C %s: %s" % (d["name"], (v.get("raw_tail") or "")[-300:].replace("\n", " ")))
+            continue
+        mine = [f for f in v["failed_checks"] if prop in tags_of(f["check"])]
+        other = [f for f in v["failed_checks"] if prop not in tags_of(f["check"])]
+        for f in other:
+            notes.append("NOTE %s: failed check outside this property: %s" % (d["name"], f["check"][:160]))
+        if not mine:
+            continue
+        wit = []
+        try:
+            wit = LC.playback(row)
+        except Exception as e:  # noqa
+            notes.append("NOTE playback failed: %s" % e)
+        mine_txt = set(f["check"].strip('"') for f in mine)
+        w = next((w for w in wit if w["check"] in mine_txt), None) or (wit[0] if wit else None)
+        ob = "%s::step [%s]" % (d["name"], "; ".join(sorted(mine_txt))[:300])
+        body = ["bounded step-contract harness (Kani/CBMC) on the macro-expanded lexer of the snapshot", "definition %s, window N=%d, at most m=%d lexemes per call, unwind %d" % (d["name"], row["N"], row["m"], row["unwind"]),
+                "", LC.G.lexer_text(d), "", "failed checks:"] + ["  " + f["check"] for f in v["failed_checks"]]
+        suffix = ""
+        if w is not None:
+            chars = "".join(chr(x) if 0x20 <= x < 0x7f else "\\u{%x}" % x for x in w["a"][:w["n"]])
+            body += ["", "counterexample from CBMC (concrete playback): remaining input %r, rule set index %d, done flag %d, base location %s" % (chars, w["rs0"], w["done0"], w["base"]),
+                     "", "---- replay on the real code (harness crate built natively against the snapshot) ----", LC.native_replay(row, w)]
+        else:
+            suffix = " no-failing-input-found"
+            body += ["", "no concrete playback available"]
+        body += ["", "---- Kani output (tail) ----", row["output"][-3000:]]
+        path = C.write_replay(prop, ob, "\n".join(body))
+        lines.append("VIOLATION property=%s replay=%s obligation=%s%s" % (prop, path, re.sub(r"\s+", "_", ob)[:200], suffix))
+        violations += 1
+    return lines, notes, undecided, samples, c_ok
+
+
 def main(prop, cfg):
     """cfg: dict(level_text..., verus_units=[(name,min)], layer_b=True/False, extra=callable or None, trusted=[...], assumptions=[...])"""
     t0 = time.time()
@@ -144,47 +191,8 @@ def main(prop, cfg):
                 notes.append("NOTE contract harness %s fails on a conjunct that this property's own obligations do not include (%s)" % (
                     r["name"], "; ".join(f["check"] for f in r["result"]["failed_checks"])[:200]))
     # ---------------- layer C results
-    c_ok = 0
-    samples = []
-    for row in crows:
-        v = row["result"]
-        d = row["def"]
-        samples.append({"definition": d["name"], "N": row["N"], "m": row["m"], "unwind": row["unwind"], "status": v["status"], "kani_s": v["time_s"],
-                        "checks": v["checks"], "covers_satisfied": v["covers"], "lexer": LC.G.lexer_text(d)})
-        if v["status"] == "ok":
-            c_ok += 1
-            continue
-        if v["status"] == "undecided":
-            undecided.append("layer C %s: %s" % (d["name"], (v.get("raw_tail") or "")[-300:].replace("\n", " ")))
-            continue
-        mine = [f for f in v["failed_checks"] if prop in tags_of(f["check"])]
-        other = [f for f in v["failed_checks"] if prop not in tags_of(f["check"])]
-        for f in other:
-            notes.append("NOTE %s: failed check outside this property: %s" % (d["name"], f["check"][:160]))
-        if not mine:
-            continue
-        wit = []
-        try:
-            wit = LC.playback(row)
-        except Exception as e:  # noqa
-            notes.append("NOTE playback failed: %s" % e)
-        mine_txt = set(f["check"].strip('"') for f in mine)
-        w = next((w for w in wit if w["check"] in mine_txt), None) or (wit[0] if wit else None)
-        ob = "%s::step [%s]" % (d["name"], "; ".join(sorted(mine_txt))[:300])
-        body = ["bounded step-contract harness (Kani/CBMC) on the macro-expanded lexer of the snapshot", "definition %s, window N=%d, at most m=%d lexemes per call, unwind %d" % (d["name"], row["N"], row["m"], row["unwind"]),
-                "", LC.G.lexer_text(d), "", "failed checks:"] + ["  " + f["check"] for f in v["failed_checks"]]
-        suffix = ""
-        if w is not None:
-            chars = "".join(chr(x) if 0x20 <= x < 0x7f else "\\u{%x}" % x for x in w["a"][:w["n"]])
-            body += ["", "counterexample from CBMC (concrete playback): remaining input %r, rule set index %d, done flag %d, base location %s" % (chars, w["rs0"], w["done0"], w["base"]),
-                     "", "---- replay on the real code (harness crate built natively against the snapshot) ----", LC.native_replay(row, w)]
-        else:
-            suffix = " no-failing-input-found"
-            body += ["", "no concrete playback available"]
-        body += ["", "---- Kani output (tail) ----", row["output"][-3000:]]
-        path = C.write_replay(prop, ob, "\n".join(body))
-        lines.append("VIOLATION property=%s replay=%s obligation=%s%s" % (prop, path, re.sub(r"\s+", "_", ob)[:200], suffix))
-        violations += 1
+    l2, n2, u2, samples, c_ok = judge_layer_c(prop, crows)
+    lines += l2; notes += n2; undecided += u2; violations += len(l2)
     # ---------------- optional extra part
     extra_cov = {}
     if cfg.get("extra"):
